@@ -370,6 +370,62 @@ theorem flush_ok_iff (nis : List String) :
   split <;> simp_all
 end
 
+/-! ### the counters, exactly -/
+
+section
+variable (refName : String → String → String) (refErr : String → String → Option Status)
+
+/-- does the entry hold a reference on group `g` of instance `t` that the flush gives back? -/
+def holdsRef {κ : Type} (ni t : String) (g : Nat) (e : κ × OrigTop) : Bool :=
+  (refErr ni e.2.NextHopGroupNetworkInstance).isNone && refName ni e.2.NextHopGroupNetworkInstance == t &&
+    e.2.NextHopGroup == g
+
+theorem count_topEffs {κ : Type} (del : String → κ → Eff) (hdel : ∀ a b t g, del a b ≠ Eff.decNHGRef t g)
+    (ni t : String) (g : Nat) : ∀ (l : List (κ × OrigTop)),
+    (l.flatMap (topEffs refName refErr del ni)).count (Eff.decNHGRef t g) = l.countP (holdsRef refName refErr ni t g) := by
+  intro l
+  induction l with
+  | nil => rfl
+  | cons e tl ih =>
+    simp only [List.flatMap_cons, List.count_append, ih, List.countP_cons]
+    have hd : [del ni e.1].count (Eff.decNHGRef t g) = 0 := by
+      simp [hdel]
+    unfold topEffs holdsRef
+    cases hr : refErr ni e.2.NextHopGroupNetworkInstance with
+    | some x => simp [hd]
+    | none =>
+      by_cases h1 : refName ni e.2.NextHopGroupNetworkInstance = t <;> by_cases h2 : e.2.NextHopGroup = g <;>
+        simp [hd, h1, h2] <;> omega
+end
+
+section
+variable (v4 v6 : String → Map String OrigTop) (mpls : String → Map Nat OrigTop)
+  (nhgs nhgsRest : String → Map Nat FlNHG) (nhs : String → Map Nat Unit)
+  (refName : String → String → String) (refErr : String → String → Option Status)
+
+/-- **the group counters follow the flush exactly**: flushing an instance gives back, for every
+group `g` of every instance `t`, as many references as the instance's IPv4, IPv6 and MPLS entries
+hold on it — one `decNHGRefCount` per referring entry, none for anything else (C03: deletion
+protection stays consistent with what remains; C08) -/
+theorem flush_unref_count (ni t : String) (g : Nat) :
+    (niEffs v4 v6 mpls nhgs nhgsRest nhs refName refErr ni).count (Eff.decNHGRef t g) =
+      (v4 ni).countP (holdsRef refName refErr ni t g) + (v6 ni).countP (holdsRef refName refErr ni t g) +
+      (mpls ni).countP (holdsRef refName refErr ni t g) := by
+  unfold niEffs
+  simp only [List.count_append]
+  rw [count_topEffs refName refErr (Eff.flDelStr 4) (by intros; simp),
+      count_topEffs refName refErr (Eff.flDelStr 6) (by intros; simp),
+      count_topEffs refName refErr (Eff.flDelNat 1) (by intros; simp)]
+  have z1 : ∀ (l : List Nat), (l.map (Eff.flDelNat 2 ni)).count (Eff.decNHGRef t g) = 0 := by
+    intro l; induction l <;> simp_all
+  have z2 : ∀ (l : List (Nat × FlNHG)), (l.map (fun e => Eff.flDelNat 2 ni e.1)).count (Eff.decNHGRef t g) = 0 := by
+    intro l; induction l <;> simp_all
+  have z3 : ∀ (l : List (Nat × Unit)), (l.map (fun e => Eff.flDelNat 3 ni e.1)).count (Eff.decNHGRef t g) = 0 := by
+    intro l; induction l <;> simp_all
+  rw [z1, z2, z3]
+  omega
+end
+
 theorem gen_ribflush_translated : Gen.ribFlush_problem = none := rfl
 
 /-- non-vacuity: one instance with a prefix pointing at group 1 of another instance, group 1 with
